@@ -18,6 +18,8 @@ missed = sum(1 for r in rows if "**none**" in r)
 table += "\n\n%d seeded changes, %d detected by at least one check, %d not detected.\n" % (n, n - missed, missed)
 p = os.path.join(ROOT, "DESIGN.md")
 s = open(p).read()
-s = re.sub(r"<!-- SEEDED-TABLE-BEGIN -->.*<!-- SEEDED-TABLE-END -->", "<!-- SEEDED-TABLE-BEGIN -->\n" + table + "<!-- SEEDED-TABLE-END -->", s, flags=re.S)
+i = s.index("<!-- SEEDED-TABLE-BEGIN -->")
+j = s.index("<!-- SEEDED-TABLE-END -->")
+s = s[:i] + "<!-- SEEDED-TABLE-BEGIN -->\n" + table + s[j:]
 open(p, "w").write(s)
 print("%d rows, %d missed" % (n, missed))
